@@ -260,7 +260,38 @@ def run(program, res, tier):
             conds = " ".join(unparse(b.cond) for b, _l in g.lexical_guards(r))
             if "isinstance(observed_value" in conds:
                 n_msgs += 1
-    if n_msgs >= 2:
-        res.ok("C22-S5", "_check_spec reports a failed isinstance for single types and for type sets")
+    # how conformance is decided: subclass-aware (isinstance), existential over a type set
+    n_conf = 0
+    for r in g.returns():
+        if not isinstance(r.stmt.value, ast.JoinedStr):
+            continue
+        guards = [b for b, _l in g.lexical_guards(r)]
+        inner = guards[-1].cond if guards else None
+        if inner is None:
+            continue
+        txt = unparse(inner)
+        class_vars = {st.targets[0].id for st in ast.walk(cs.node) if isinstance(st, ast.Assign) and len(st.targets) == 1
+                      and isinstance(st.targets[0], ast.Name) and isinstance(st.value, ast.Call) and dotted_name(st.value.func) == "type"
+                      and st.value.args and unparse(st.value.args[0]) == "observed_value"}
+        if "observed_value" not in txt and not any(isinstance(x, ast.Name) and x.id in class_vars for x in ast.walk(inner)):
+            continue
+        n_conf += 1
+        exact = [c for c in ast.walk(inner) if isinstance(c, ast.Compare) and any(
+            (isinstance(x, ast.Call) and dotted_name(x.func) == "type" and x.args and unparse(x.args[0]) == "observed_value")
+            or (isinstance(x, ast.Name) and x.id in class_vars)
+            for x in [c.left] + list(c.comparators))]
+        if exact:
+            res.fail_at("C22-S5", cs, "type-test-exact-class",
+                        f"`{txt[:80]}` compares the exact class of the value with the declared type(s): a value whose class is a subclass of a declared "
+                        f"type (numpy.float64 for float, bool for int, a DataFrame subclass) is rejected although it satisfies the schema", inner)
+            continue
+        univ = [c for c in ast.walk(inner) if isinstance(c, ast.Call) and (dotted_name(c.func) or "").split(".")[-1] == "all"]
+        if univ and "isinstance(observed_value" in txt:
+            res.fail_at("C22-S5", cs, "type-set-universal", f"`{txt[:80]}` requires the value to be an instance of *every* type of the set", inner)
+            continue
+        if "isinstance(observed_value" in txt:
+            res.ok("C22-S5", f"_check_spec: mismatch message under `{txt[:60]}` (subclass-aware isinstance)")
+    if n_msgs >= 2 or n_conf >= 2:
+        res.ok("C22-S5", "_check_spec reports a failed conformance test for single types and for type sets")
     else:
-        res.fail_at("C22-S5", cs, "type-mismatch-silent", f"only {n_msgs} of the two type-mismatch branches of _check_spec return a message")
+        res.fail_at("C22-S5", cs, "type-mismatch-silent", f"only {max(n_msgs, n_conf)} of the two type-mismatch branches of _check_spec return a message")
